@@ -238,6 +238,38 @@ func runScenario(seed int64, idx int, kind string) (out scenarioOut) {
 			panic("load failed")
 		}
 	}
+	// warm-up: every node sees (and verifies) every other node's gossiper entry for a DECOY transaction; the forged
+	// "signed for another item" entries below replay exactly those signatures on the real item
+	decoy, err := transaction.New("decoy", spice.New(0, 0), []byte("decoy"), users[1].Address(), users[2])
+	if err != nil {
+		panic(err)
+	}
+	decoyEntry := make([]*protobufcompiled.Gossiper, nn)
+	for i, x := range nw.nodes {
+		d, sg := x.w.Sign(gossip.VerifGossiperMessage(x.w.Address(), decoy.Hash))
+		decoyEntry[i] = &protobufcompiled.Gossiper{Address: x.w.Address(), Digest: d[:], Signature: sg}
+	}
+	if kind != "poison" {
+		pd, _ := transformers.TrxToProtoTrx(decoy)
+		for i, x := range nw.nodes {
+			var gl []*protobufcompiled.Gossiper
+			for j := range nw.nodes {
+				if j != i {
+					gl = append(gl, decoyEntry[j])
+				}
+			}
+			func() {
+				defer func() { recover() }()
+				x.g.Server().GossipTrx(context.Background(), &protobufcompiled.TrxMsgGossip{Trx: proto.Clone(pd).(*protobufcompiled.Transaction), Gossipers: gl})
+			}()
+		}
+		nw.settle(0)
+		nw.mu.Lock()
+		nw.queue = nil
+		nw.sent = 0
+		nw.mu.Unlock()
+		out.stats["decoy_warmups"] += nn
+	}
 	origin := rng.Intn(nn)
 	if kind == "poison" {
 		origin = 0
@@ -262,6 +294,15 @@ func runScenario(seed int64, idx int, kind string) (out scenarioOut) {
 		t, err := transaction.New("transfer", spice.New(1, 5), nil, users[1].Address(), users[0])
 		if err != nil {
 			panic(err)
+		}
+		if kind == "orphan" { // the item's parent exists at the origin only
+			tp, err := transaction.New("parent", spice.New(1, 0), nil, users[1].Address(), users[0])
+			if err != nil {
+				panic(err)
+			}
+			if _, err := on.ab.CreateLeaf(context.Background(), &tp); err != nil {
+				panic(err)
+			}
 		}
 		v, err := on.ab.CreateLeaf(context.Background(), &t)
 		if err != nil {
@@ -323,6 +364,8 @@ func runScenario(seed int64, idx int, kind string) (out scenarioOut) {
 		}
 		return "[" + strings.Join(s, "; ") + "]", valid
 	}
+	contacted := map[int]bool{origin: true}
+	poisoned := -1
 	deliver := func(m msg, note string) {
 		n := nw.nodes[m.dst]
 		before := nw.qlen()
@@ -352,13 +395,47 @@ func runScenario(seed int64, idx int, kind string) (out scenarioOut) {
 			dests = append(dests, x.dst)
 			// C11: never to a node already listed as a verified gossiper
 			_, vs := coqList(gossipersOf(x))
+			self := false
 			for _, vi := range vs {
 				if vi == x.dst {
 					viol("C11", "forwarded-to-listed-node", fmt.Sprintf("node %d forwarded to node %d which is in the verified gossiper list", m.dst, x.dst))
 				}
+				if vi == m.dst {
+					self = true
+				}
+			}
+			if !self { // the next hop could not know that this node has the item: it would be sent back here
+				viol("C11", "forwarder-omits-own-entry", fmt.Sprintf("node %d forwarded to node %d without its own valid gossiper entry", m.dst, x.dst))
 			}
 		}
 		sort.Ints(dests)
+		// C12: entries that do not verify for THIS item must be ignored
+		invalidNamed := map[int]bool{}
+		validNamed := map[int]bool{}
+		for _, e := range gossipersOf(m) {
+			if i, ok := addrIdx[e.Address]; ok {
+				if validEntry(e) {
+					validNamed[i] = true
+				} else {
+					invalidNamed[i] = true
+				}
+			}
+		}
+		if len(dests) > 0 {
+			sent := map[int]bool{}
+			for _, d := range dests {
+				sent[d] = true
+			}
+			for _, p := range adj[m.dst] {
+				if !sent[p] && invalidNamed[p] && !validNamed[p] {
+					viol("C12", "forged-entry-suppressed-forward", fmt.Sprintf("node %d did not forward to its peer %d, which the incoming list names only in an entry that does not verify for this item (%s)", m.dst, p, note))
+				}
+			}
+		}
+		if !contacted[m.dst] && !hadBefore && !admitted && err == nil && invalidNamed[m.dst] && !validNamed[m.dst] && m.dst != poisoned && kind != "orphan" {
+			viol("C12", "forged-self-entry-skipped-processing", fmt.Sprintf("node %d answered OK without processing the item: the incoming list names it in an entry that does not verify (%s)", m.dst, note))
+		}
+		contacted[m.dst] = true
 		if len(dests) > 0 {
 			n.fwd++
 			if n.fwd > 1 {
@@ -388,7 +465,6 @@ func runScenario(seed int64, idx int, kind string) (out scenarioOut) {
 		return m
 	}
 	// optional adversary: a corrupted copy with the same hash reaches a node first (flash poisoning)
-	poisoned := -1
 	if kind == "poison" && !isTrx {
 		// node 2 is the Byzantine relay; its victim is node 3, which also has the honest path 0-1-3
 		victim := 3
@@ -413,11 +489,16 @@ func runScenario(seed int64, idx int, kind string) (out scenarioOut) {
 				e = &protobufcompiled.Gossiper{Address: victim.w.Address(), Digest: make([]byte, 32), Signature: make([]byte, 64)}
 				note = " +forged(unsigned)"
 			case 1:
-				var other [32]byte
-				rng.Read(other[:])
-				d, s := victim.w.Sign(gossip.VerifGossiperMessage(victim.w.Address(), other))
-				e = &protobufcompiled.Gossiper{Address: victim.w.Address(), Digest: d[:], Signature: s}
-				note = " +forged(other item)"
+				if rng.Intn(2) == 0 { // a signature this node has verified before, on the decoy item
+					e = proto.Clone(decoyEntry[victim.idx]).(*protobufcompiled.Gossiper)
+					note = " +forged(replayed entry of another item)"
+				} else {
+					var other [32]byte
+					rng.Read(other[:])
+					d, s := victim.w.Sign(gossip.VerifGossiperMessage(victim.w.Address(), other))
+					e = &protobufcompiled.Gossiper{Address: victim.w.Address(), Digest: d[:], Signature: s}
+					note = " +forged(other item)"
+				}
 			default:
 				d, s := users[2].Sign(gossip.VerifGossiperMessage(victim.w.Address(), itemHash))
 				e = &protobufcompiled.Gossiper{Address: victim.w.Address(), Digest: d[:], Signature: s}
@@ -450,6 +531,12 @@ func runScenario(seed int64, idx int, kind string) (out scenarioOut) {
 		}
 	}
 	for i := 0; i < nn; i++ {
+		if kind == "orphan" {
+			if i != origin && has(i) {
+				viol("C11", "admitted-without-parent", fmt.Sprintf("node %d admitted a vertex whose parent it does not hold", i))
+			}
+			continue
+		}
 		if reach[i] && !has(i) {
 			if i == poisoned {
 				viol("C12", "flash-poisoning", fmt.Sprintf("node %d saw a corrupted copy first and then dropped the genuine copies: it never admitted the vertex although it has an honest path to the origin", i))
@@ -483,7 +570,15 @@ func runScenario(seed int64, idx int, kind string) (out scenarioOut) {
 			fin = append(fin, fmt.Sprint(i))
 		}
 	}
-	out.trace = fmt.Sprintf("GTrace [%s] %d [%s] [%s] %d%%nat", strings.Join(tab, ";"), origin, strings.Join(steps, ";\n  "), strings.Join(fin, ";"), nw.qlen())
+	var refusing []string
+	if kind == "orphan" {
+		for i := 0; i < nn; i++ {
+			if i != origin {
+				refusing = append(refusing, fmt.Sprint(i))
+			}
+		}
+	}
+	out.trace = fmt.Sprintf("GTrace [%s] %d [%s] [%s] %d%%nat [%s]", strings.Join(tab, ";"), origin, strings.Join(steps, ";\n  "), strings.Join(fin, ";"), nw.qlen(), strings.Join(refusing, ";"))
 	out.nontriv = delivered >= 2 && nn >= 3
 	return out
 }
@@ -515,6 +610,9 @@ func main() {
 		}
 		if i%9 == 8 {
 			kind = "poison"
+		}
+		if i%9 == 5 {
+			kind = "orphan"
 		}
 		wg.Add(1)
 		sem <- struct{}{}
